@@ -76,13 +76,13 @@ def run(ctx):
             fam_n.append({'K': K, 'f': ('A', g), 'cert': 4 if K['n'] <= 2 else 5})
     fam_e = [dict(c, mode=rnd.choice(['text', 'raw', 'raw'])) for c in gen.samp(rnd, fam_a + fam_n + fam_l, 1500 if q else 20000)]
     # tall formulas (nesting height 100-140, few temporal operators): a specification folded from many requirements
-    fam_t = [{'K': rnd.choice(scope3), 'f': ('A', gen.tall_path(rnd, rnd.randint(98, 140))), 'late_edge': False} for _ in range(24 if q else 300)]
+    fam_t = [{'K': rnd.choice(scope3), 'f': ('A', gen.tall_path(rnd, rnd.randint(98, 140))), 'late_edge': False} for _ in range(24 if q else 80)]
     fam_r = []
     for _ in range(500 if q else 10000):
         r = rnd.random()
         K = gen.multi_core_kripke(rnd)[0] if r < 0.35 else gen.core_tail_kripke(rnd)[0] if r < 0.6 else gen.rand_kripke(rnd, rnd.choice([4, 5, 6]), density=rnd.choice([0.2, 0.3]))
         g = gen.recurrence_formulas(rnd)
-        if gen.temporal_count(g) <= 4 and len(fam_r) < (250 if q else 6000):
+        if gen.temporal_count(g) <= 4 and len(fam_r) < (250 if q else 2000):
             fam_r.append({'K': K, 'f': ('A', g)})
     for fam in (fam_a, fam_b, fam_c, fam_d, fam_e, fam_n, fam_l, fam_s, fam_t, fam_r):
         for c in fam:
